@@ -118,7 +118,7 @@ func runShard(p *Prop, tier string, seed uint64, shard, nshards int, dir string,
 	env := []string{"TZ=UTC", "LANG=C", "HOME=" + os.Getenv("HOME"), "PATH=" + os.Getenv("PATH"), "VERIF_ROOT=" + root(),
 		"GOTRACEBACK=all", "VCHECK_LIQUID_BIN=" + os.Getenv("VCHECK_LIQUID_BIN")}
 	if p.Race {
-		env = append(env, "GORACE=halt_on_error=0 log_path="+filepath.Join(dir, fmt.Sprintf("race-%02d", shard)))
+		env = append(env, "GORACE=halt_on_error=0 exitcode=0 log_path="+filepath.Join(dir, fmt.Sprintf("race-%02d", shard)))
 	}
 	cmd.Env = env
 	if err := cmd.Start(); err != nil {
